@@ -19,6 +19,22 @@ def gen(rng, tier, n):
     fields = gsv.fetch_fields(core)
     schemaish = [f for f in fields if "Schema" in f["type"]]
     ops = []
+    single = [f["name"] for f in fields if f["type"] == "*jsonschema.Schema"]
+    many = [f["name"] for f in fields if f["type"] == "[]*jsonschema.Schema"]
+    maps = [f["name"] for f in fields if f["type"] == "map[string]*jsonschema.Schema"]
+    for depth in ([40, 63, 64, 65, 66, 100, 130, 200] if single else []):
+        # one long chain of nested subschemas (every kind of schema-holding field on the way)
+        nodes = [{"Type": "string"}]
+        for d in range(depth):
+            r = rng.random()
+            child = len(nodes) - 1
+            if r < 0.6 or not many:
+                nodes.append({rng.choice(single): child})
+            elif r < 0.8 or not maps:
+                nodes.append({rng.choice(many): [child]})
+            else:
+                nodes.append({rng.choice(maps): [["k", child]]})
+        ops.append({"op": "clone", "args": {"desc": {"nodes": nodes, "root": len(nodes) - 1}}, "meta": {"facts": {"n": depth + 1}, "nt": True}})
     while len(ops) < n:
         # bias towards schema-bearing fields
         fl = schemaish * 3 + fields if rng.random() < 0.7 else fields
@@ -69,6 +85,8 @@ def judge(o, go, m):
             return "violation", "clone value: real package %s, model %r" % (go["clone_text"][:200], from_tagged(mo["clone_value"]))
         if go.get("frame") is not True:
             return "violation", "mutating the clone changed the original"
+        if go.get("frame_inplace") is False:
+            return "violation", "growing the clone's schema slices / maps in place changed the original (a shared map or backing array)"
     elif not go.get("same_error"):
         return "violation", "only one of original / clone fails to marshal"
     if go.get("alone_resolves") and not go.get("both_resolve"):
